@@ -225,6 +225,9 @@ def run(ctx):
 
     lmax = 5 if ctx.thorough else 3
     sets = shell_sets(lmax)
+    if not ctx.thorough:
+        # the sign/normalisation tables of g and h shells are vendor specific: a few such sets also in the quick tier
+        sets += [((1, "c"), (4, "p")), ((0, "c"), (5, "p")), ((1, "c"), (4, "p"), (5, "p")), ((0, "c"), (4, "c"))]
     k = 2 if ctx.thorough else 1
     others = list(dbe.cases(OTHER, k))
     jobs = []
